@@ -58,6 +58,8 @@ pub enum Op {
     Wait(u32),
     /// the connection between the requester and the unrelated third node ends
     CutBystander,
+    /// a second requester node (connected to the responder) sends request `idx`
+    SendOther { idx: u8 },
 }
 
 #[derive(Clone, Debug, Serialize, Deserialize)]
@@ -74,6 +76,10 @@ pub struct RrScenario {
     /// a third node C (same protocol, answers) is connected to the requester; `Op::CutBystander` ends that connection
     #[serde(default)]
     pub bystander: bool,
+    /// a second requester node D (same protocol) is connected to the responder; `Op::SendOther` makes it send a request,
+    /// so the responder's bound on concurrent inbound requests is exercised by requests of two different peers
+    #[serde(default)]
+    pub second_requester: bool,
 }
 
 #[derive(Debug, Clone)]
@@ -108,6 +114,7 @@ pub struct St {
     wait: Option<u32>,
     node_a: usize,
     node_b: usize,
+    d_cmd: Option<tokio::sync::mpsc::UnboundedSender<ACmd>>,
 }
 
 fn payload(idx: u8, size: usize) -> Vec<u8> {
@@ -260,13 +267,24 @@ impl Scenario for RrScenario {
             w.nodes[a].cmd.send(NodeCmd::DialAddress(addr_c)).unwrap();
             w.run_to_quiescence(50_000);
         }
+        let mut d_cmd = None;
+        if self.second_requester {
+            let (cfg_d, handle_d) = mk(None);
+            let d = w
+                .add_node(24, ConfigBuilder::new().with_request_response_protocol(cfg_d).with_keep_alive_timeout(Duration::from_secs(60)))
+                .expect("node d");
+            let (tx, _d_log) = spawn_requester(w, d, handle_d, peer_b);
+            w.nodes[d].cmd.send(NodeCmd::DialAddress(w.nodes[b].address.clone())).unwrap();
+            w.run_to_quiescence(50_000);
+            d_cmd = Some(tx);
+        }
         if self.fail_first_dial {
             let next = 0;
             // ordinal of node a's next transport-level dial
             let ord = if self.connected { 1 } else { next };
             w.faults.fail_dials.insert((a, ord));
         }
-        St { a_cmd, a_log, b_log, pc: 0, peer_b, wait: None, node_a: a, node_b: b }
+        St { a_cmd, a_log, b_log, pc: 0, peer_b, wait: None, node_a: a, node_b: b, d_cmd }
     }
 
     fn lazy_count(&self, st: &St, _w: &World) -> usize {
@@ -288,6 +306,11 @@ impl Scenario for RrScenario {
             Op::Cancel { idx } => {
                 let _ = st.a_cmd.send(ACmd::Cancel { idx: *idx });
             }
+            Op::SendOther { idx } => {
+                if let Some(tx) = &st.d_cmd {
+                    let _ = tx.send(ACmd::Send { idx: *idx, dial: false, size: 3, try_send: false, with_fallback: false });
+                }
+            }
             Op::CutLink => {
                 for k in 0..w.links.len() {
                     let (x, y) = (w.links[k].a, w.links[k].b);
@@ -299,7 +322,7 @@ impl Scenario for RrScenario {
             Op::CutBystander => {
                 for k in 0..w.links.len() {
                     let (x, y) = (w.links[k].a, w.links[k].b);
-                    if x != st.node_b && y != st.node_b {
+                    if (x == st.node_a || y == st.node_a) && x != st.node_b && y != st.node_b {
                         w.cut_link(k);
                     }
                 }
@@ -425,29 +448,29 @@ pub fn scenarios(thorough: bool) -> Vec<RrScenario> {
                     continue;
                 }
                 let program: Vec<Op> = (0..n).map(|i| send(i, true)).collect();
-                v.push(RrScenario { connected, program, responder, max_inbound: None, fail_first_dial: false, remote_refuses: false, bystander: false });
+                v.push(RrScenario { connected, program, responder, max_inbound: None, fail_first_dial: false, remote_refuses: false, bystander: false, second_requester: false });
             }
             // cancel at any point of a 2-request program
             for pos in 1..=2usize {
                 let mut program = vec![send(0, true), send(1, true)];
                 program.insert(pos, Op::Cancel { idx: 0 });
-                v.push(RrScenario { connected, program, responder, max_inbound: None, fail_first_dial: false, remote_refuses: false, bystander: false });
+                v.push(RrScenario { connected, program, responder, max_inbound: None, fail_first_dial: false, remote_refuses: false, bystander: false, second_requester: false });
             }
             // connection drops after the requests were handed over
-            v.push(RrScenario { connected, program: vec![send(0, true), send(1, true), Op::CutLink], responder, max_inbound: None, fail_first_dial: false, remote_refuses: false, bystander: false });
+            v.push(RrScenario { connected, program: vec![send(0, true), send(1, true), Op::CutLink], responder, max_inbound: None, fail_first_dial: false, remote_refuses: false, bystander: false, second_requester: false });
         }
         // dial failure
-        v.push(RrScenario { connected, program: vec![send(0, true), send(1, true)], responder: Resp::Answer, max_inbound: None, fail_first_dial: true, remote_refuses: false, bystander: false });
+        v.push(RrScenario { connected, program: vec![send(0, true), send(1, true)], responder: Resp::Answer, max_inbound: None, fail_first_dial: true, remote_refuses: false, bystander: false, second_requester: false });
         // no dial allowed
-        v.push(RrScenario { connected, program: vec![send(0, false), send(1, true)], responder: Resp::Answer, max_inbound: None, fail_first_dial: false, remote_refuses: false, bystander: false });
+        v.push(RrScenario { connected, program: vec![send(0, false), send(1, true)], responder: Resp::Answer, max_inbound: None, fail_first_dial: false, remote_refuses: false, bystander: false, second_requester: false });
         // try_send
-        v.push(RrScenario { connected, program: vec![Op::Send { idx: 0, dial: true, size: 3, try_send: true, with_fallback: false }, Op::Send { idx: 1, dial: true, size: 3, try_send: true, with_fallback: false }], responder: Resp::Answer, max_inbound: None, fail_first_dial: false, remote_refuses: false, bystander: false });
+        v.push(RrScenario { connected, program: vec![Op::Send { idx: 0, dial: true, size: 3, try_send: true, with_fallback: false }, Op::Send { idx: 1, dial: true, size: 3, try_send: true, with_fallback: false }], responder: Resp::Answer, max_inbound: None, fail_first_dial: false, remote_refuses: false, bystander: false, second_requester: false });
     }
     // the `*_with_fallback` flavour of the calls: answered, refused at once (not connected, no dial allowed), dial failing,
     // and mixed with the plain flavour
     for connected in [true, false] {
         let fb = |idx: u8, dial: bool, try_send: bool| Op::Send { idx, dial, size: 3, try_send, with_fallback: true };
-        let mk = |program: Vec<Op>, fail_first_dial: bool| RrScenario { connected, program, responder: Resp::Answer, max_inbound: None, fail_first_dial, remote_refuses: false, bystander: false };
+        let mk = |program: Vec<Op>, fail_first_dial: bool| RrScenario { connected, program, responder: Resp::Answer, max_inbound: None, fail_first_dial, remote_refuses: false, bystander: false, second_requester: false };
         v.push(mk(vec![fb(0, true, false), send(1, true)], false));
         v.push(mk(vec![fb(0, false, false), fb(1, true, true)], false));
         v.push(mk(vec![fb(0, false, true), send(1, false), fb(2, true, false)], false));
@@ -456,13 +479,13 @@ pub fn scenarios(thorough: bool) -> Vec<RrScenario> {
     // the remote refuses the connection right after it was negotiated
     for n in 1..=2u8 {
         let program: Vec<Op> = (0..n).map(|i| send(i, true)).collect();
-        v.push(RrScenario { connected: false, program, responder: Resp::Answer, max_inbound: None, fail_first_dial: false, remote_refuses: true, bystander: false });
+        v.push(RrScenario { connected: false, program, responder: Resp::Answer, max_inbound: None, fail_first_dial: false, remote_refuses: true, bystander: false, second_requester: false });
     }
     // the requester's substream is slow to open: the request times out (4 s) before the substream exists, is cancelled,
     // or the connection drops first; the late substream must not produce a second event
     for responder in [Resp::Answer, Resp::Stall] {
         for connected in [true, false] {
-            let mk = |program: Vec<Op>| RrScenario { connected, program, responder, max_inbound: None, fail_first_dial: false, remote_refuses: false, bystander: false };
+            let mk = |program: Vec<Op>| RrScenario { connected, program, responder, max_inbound: None, fail_first_dial: false, remote_refuses: false, bystander: false, second_requester: false };
             if responder == Resp::Answer {
                 v.push(mk(vec![Op::HoldOpens(true), send(0, true), Op::Wait(5), Op::HoldOpens(false)]));
                 v.push(mk(vec![Op::HoldOpens(true), send(0, true), Op::Cancel { idx: 0 }, Op::HoldOpens(false), send(1, true)]));
@@ -477,16 +500,24 @@ pub fn scenarios(thorough: bool) -> Vec<RrScenario> {
     }
     // an unrelated connection of the requester ends while requests to B are in flight: they must be unaffected
     for responder in [Resp::Answer, Resp::Stall] {
-        v.push(RrScenario { connected: true, program: vec![send(0, true), Op::CutBystander, send(1, true)], responder, max_inbound: None, fail_first_dial: false, remote_refuses: false, bystander: true });
+        v.push(RrScenario { connected: true, program: vec![send(0, true), Op::CutBystander, send(1, true)], responder, max_inbound: None, fail_first_dial: false, remote_refuses: false, bystander: true, second_requester: false });
     }
-    v.push(RrScenario { connected: false, program: vec![send(0, true), Op::CutBystander], responder: Resp::Answer, max_inbound: None, fail_first_dial: false, remote_refuses: false, bystander: true });
+    v.push(RrScenario { connected: false, program: vec![send(0, true), Op::CutBystander], responder: Resp::Answer, max_inbound: None, fail_first_dial: false, remote_refuses: false, bystander: true, second_requester: false });
     // payload sizes
     for size in [0usize, 1, MAX_SIZE, MAX_SIZE + 1] {
-        v.push(RrScenario { connected: true, program: vec![Op::Send { idx: 0, dial: true, size, try_send: false, with_fallback: false }, send(1, true)], responder: Resp::Answer, max_inbound: None, fail_first_dial: false, remote_refuses: false, bystander: false });
+        v.push(RrScenario { connected: true, program: vec![Op::Send { idx: 0, dial: true, size, try_send: false, with_fallback: false }, send(1, true)], responder: Resp::Answer, max_inbound: None, fail_first_dial: false, remote_refuses: false, bystander: false, second_requester: false });
     }
     // inbound bound
     for responder in [Resp::Answer, Resp::Stall] {
-        v.push(RrScenario { connected: true, program: vec![send(0, true), send(1, true), send(2, true)], responder, max_inbound: Some(1), fail_first_dial: false, remote_refuses: false, bystander: false });
+        v.push(RrScenario { connected: true, program: vec![send(0, true), send(1, true), send(2, true)], responder, max_inbound: Some(1), fail_first_dial: false, remote_refuses: false, bystander: false, second_requester: false });
+    }
+    // inbound bound with requests of two different peers arriving together
+    for (responder, program) in [
+        (Resp::Stall, vec![send(0, true), Op::SendOther { idx: 7 }]),
+        (Resp::Stall, vec![Op::SendOther { idx: 7 }, send(0, true), send(1, true)]),
+        (Resp::Answer, vec![send(0, true), Op::SendOther { idx: 7 }, send(1, true)]),
+    ] {
+        v.push(RrScenario { connected: true, program, responder, max_inbound: Some(1), fail_first_dial: false, remote_refuses: false, bystander: false, second_requester: true });
     }
     v
 }
@@ -499,7 +530,7 @@ fn connection_lost_while_the_users_event_channel_is_full(ctx: &mut Ctx) {
     let result = std::thread::spawn(|| -> Result<(usize, usize), Viol> {
         let rt = crate::env::driver::runtime(9);
         let _g = rt.enter();
-        let scn = RrScenario { connected: true, program: vec![], responder: Resp::Stall, max_inbound: None, fail_first_dial: false, remote_refuses: false, bystander: false };
+        let scn = RrScenario { connected: true, program: vec![], responder: Resp::Stall, max_inbound: None, fail_first_dial: false, remote_refuses: false, bystander: false, second_requester: false };
         let mut w = World::new();
         let st = scn.setup(&mut w);
         let _ = st.a_cmd.send(ACmd::Send { idx: 0, dial: true, size: 3, try_send: false, with_fallback: false });
